@@ -62,7 +62,11 @@ Qed.
 
 (** ---- the invariant: ownership + simulation of the value semantics *)
 Definition live (cs : cstate) (o : nat) (co : cobj) : Prop := nth_error (cobjs cs) o = Some (Some co).
-Definition owns (co : cobj) (b : nat) : Prop := b = cseq co \/ b = cqual co.
+Definition owns (co : cobj) (b : nat) : Prop := b = cseq co \/ b = cqual co \/ b = cfeat co.
+Definition distinct3 (a b c : nat) : Prop := a <> b /\ a <> c /\ b <> c.
+Lemma owns_seq : forall co, owns co (cseq co). Proof. intros; left; reflexivity. Qed.
+Lemma owns_qual : forall co, owns co (cqual co). Proof. intros; right; left; reflexivity. Qed.
+Lemma owns_feat : forall co, owns co (cfeat co). Proof. intros; right; right; reflexivity. Qed.
 
 Record inv (cs : cstate) (st : state) : Prop := mkinv {
   i_regs : cregs cs = regs st;
@@ -70,7 +74,7 @@ Record inv (cs : cstate) (st : state) : Prop := mkinv {
   i_reglive : forall r o, nth r (cregs cs) None = Some o -> exists co, live cs o co;
   i_sim : forall o co, live cs o co -> nth_error (objs st) o = Some (cread cs co);
   i_bound : forall o co b, live cs o co -> owns co b -> (b < length (heap cs))%nat;
-  i_self : forall o co, live cs o co -> cseq co <> cqual co;
+  i_self : forall o co, live cs o co -> distinct3 (cseq co) (cqual co) (cfeat co);
   i_disj : forall o1 o2 co1 co2 b, live cs o1 co1 -> live cs o2 co2 -> o1 <> o2 -> owns co1 b -> ~ owns co2 b;
   i_pool : forall o co b, live cs o co -> owns co b -> ~ In b (pool cs);
   i_poolb : pool_bounded cs }.
@@ -82,7 +86,7 @@ Proof. constructor; cbn; auto; unfold live; cbn; intros; try (destruct o; discri
 Qed.
 
 Lemma cread_frame : forall cs cs' co, (forall b, owns co b -> nth b (heap cs') [] = nth b (heap cs) []) -> cread cs' co = cread cs co.
-Proof. intros cs cs' co H. unfold cread. rewrite (H (cseq co)) by (left; reflexivity). rewrite (H (cqual co)) by (right; reflexivity). reflexivity. Qed.
+Proof. intros cs cs' co H. unfold cread. rewrite (H (cseq co)) by apply owns_seq. rewrite (H (cqual co)) by apply owns_qual. rewrite (H (cfeat co)) by apply owns_feat. reflexivity. Qed.
 
 (** a buffer handed out by [acquire] is owned by nobody, and nothing any object reads changes *)
 Lemma inv_acquire : forall cs st c content b cs', inv cs st -> acquire c content cs = (b, cs') ->
@@ -125,66 +129,78 @@ Proof.
       * subst. rewrite Nat.sub_diag. reflexivity.
 Qed.
 
-(** adding an object that owns two unowned, unpooled, distinct buffers *)
-Lemma inv_add_obj : forall cs st b1 b2 m,
-  inv cs st -> b1 <> b2 -> (forall o co, live cs o co -> ~ owns co b1 /\ ~ owns co b2) ->
-  ~ In b1 (pool cs) -> ~ In b2 (pool cs) -> (b1 < length (heap cs))%nat -> (b2 < length (heap cs))%nat ->
-  inv (mkcs (cregs cs ++ [Some (length (cobjs cs))]) (cobjs cs ++ [Some (mkco b1 b2 m)]) (heap cs) (pool cs))
-      (mks (regs st ++ [Some (length (objs st))]) (objs st ++ [mkv (nth b1 (heap cs) []) (nth b2 (heap cs) []) m])).
+(** adding an object that owns three unowned, unpooled, distinct buffers *)
+Lemma inv_add_obj : forall cs st b1 b2 b3 m mt,
+  inv cs st -> distinct3 b1 b2 b3 -> (forall o co x, live cs o co -> x = b1 \/ x = b2 \/ x = b3 -> ~ owns co x) ->
+  (forall x, x = b1 \/ x = b2 \/ x = b3 -> ~ In x (pool cs) /\ (x < length (heap cs))%nat) ->
+  inv (mkcs (cregs cs ++ [Some (length (cobjs cs))]) (cobjs cs ++ [Some (mkco b1 b2 b3 m mt)]) (heap cs) (pool cs))
+      (mks (regs st ++ [Some (length (objs st))]) (objs st ++ [mkv (nth b1 (heap cs) []) (nth b2 (heap cs) []) m (nth b3 (heap cs) []) mt])).
 Proof.
-  intros cs st b1 b2 m I D U P1 P2 L1 L2.
-  set (cs' := mkcs (cregs cs ++ [Some (length (cobjs cs))]) (cobjs cs ++ [Some (mkco b1 b2 m)]) (heap cs) (pool cs)).
-  assert (LV : forall o co, live cs' o co <-> (live cs o co \/ (o = length (cobjs cs) /\ co = mkco b1 b2 m))).
+  intros cs st b1 b2 b3 m mt I D U PL.
+  set (cs' := mkcs (cregs cs ++ [Some (length (cobjs cs))]) (cobjs cs ++ [Some (mkco b1 b2 b3 m mt)]) (heap cs) (pool cs)).
+  assert (LV : forall o co, live cs' o co <-> (live cs o co \/ (o = length (cobjs cs) /\ co = mkco b1 b2 b3 m mt))).
   { intros o co. unfold cs'. rewrite live_app. split; intros [H|[H1 H2]]; auto; right; split; auto; congruence. }
   assert (OLD : forall o co, live cs o co -> (o < length (cobjs cs))%nat).
   { intros o co H. apply nth_error_Some. unfold live in H. congruence. }
+  assert (OW : forall x, owns (mkco b1 b2 b3 m mt) x -> x = b1 \/ x = b2 \/ x = b3) by (intros x Hx; exact Hx).
   constructor; unfold cs'; cbn [cregs cobjs heap pool regs objs]; fold cs'.
   - rewrite (i_regs _ _ I), (i_len _ _ I). reflexivity.
   - rewrite !app_length, (i_len _ _ I). reflexivity.
   - intros r o Hr. destruct (Nat.lt_ge_cases r (length (cregs cs))) as [L|L].
     + rewrite app_nth1 in Hr by exact L. destruct (i_reglive _ _ I r o Hr) as [co Hco]. exists co. apply LV. left. exact Hco.
     + rewrite app_nth2 in Hr by exact L. destruct (r - length (cregs cs))%nat as [|k]; cbn in Hr; [|destruct k; discriminate].
-      injection Hr as <-. exists (mkco b1 b2 m). apply LV. right. auto.
+      injection Hr as <-. exists (mkco b1 b2 b3 m mt). apply LV. right. auto.
   - intros o co Hl. apply LV in Hl. destruct Hl as [Hl|[-> ->]].
     + rewrite nth_error_app1 by (rewrite <- (i_len _ _ I); eauto). exact (i_sim _ _ I o co Hl).
     + rewrite (i_len _ _ I). rewrite nth_error_app2 by lia. rewrite Nat.sub_diag. reflexivity.
   - intros o co x Hl Hx. apply LV in Hl. destruct Hl as [Hl|[-> ->]]; [exact (i_bound _ _ I o co x Hl Hx)|].
-    destruct Hx as [->| ->]; cbn; assumption.
+    exact (proj2 (PL x (OW x Hx))).
   - intros o co Hl. apply LV in Hl. destruct Hl as [Hl|[-> ->]]; [exact (i_self _ _ I o co Hl)|]. exact D.
   - intros o1 o2 co1 co2 x H1 H2 Hne Hx1 Hx2. apply LV in H1. apply LV in H2.
     destruct H1 as [H1|[E1 F1]]; destruct H2 as [H2|[E2 F2]].
     + exact (i_disj _ _ I o1 o2 co1 co2 x H1 H2 Hne Hx1 Hx2).
-    + subst co2. destruct (U o1 co1 H1) as [U1 U2]. destruct Hx2 as [->| ->]; cbn in *; tauto.
-    + subst co1. destruct (U o2 co2 H2) as [U1 U2]. destruct Hx1 as [->| ->]; cbn in *; tauto.
+    + subst co2. exact (U o1 co1 x H1 (OW x Hx2) Hx1).
+    + subst co1. exact (U o2 co2 x H2 (OW x Hx1) Hx2).
     + lia.
   - intros o co x Hl Hx. apply LV in Hl. destruct Hl as [Hl|[-> ->]]; [exact (i_pool _ _ I o co x Hl Hx)|].
-    destruct Hx as [->| ->]; cbn; assumption.
+    exact (proj1 (PL x (OW x Hx))).
   - exact (i_poolb _ _ I).
 Qed.
 
 Definition rel (a : (status * Z * Z) * cstate) (b : (status * Z * Z) * state) : Prop := fst a = fst b /\ inv (snd a) (snd b).
 
-Lemma sim_alloc : forall cs st v c1 c2, inv cs st -> rel (c_alloc cs v c1 c2) (alloc st v).
+Lemma sim_alloc : forall cs st v c1 c2 c3, inv cs st -> rel (c_alloc cs v c1 c2 c3) (alloc st v).
 Proof.
-  intros cs st v c1 c2 I. unfold c_alloc.
+  intros cs st v c1 c2 c3 I. unfold c_alloc.
   destruct (acquire c1 (vseq v) cs) as [b1 cs1] eqn:A1. destruct (acquire c2 (vqual v) cs1) as [b2 cs2] eqn:A2.
+  destruct (acquire c3 (vfeat v) cs2) as [b3 cs3] eqn:A3.
   destruct (inv_acquire _ _ _ _ _ _ I A1) as [I1 [U1 [N1 [P1 [L1 [R1 [O1 [F1 S1]]]]]]]].
   destruct (inv_acquire _ _ _ _ _ _ I1 A2) as [I2 [U2 [N2 [P2 [L2 [R2 [O2 [F2 S2]]]]]]]].
-  assert (D : b1 <> b2).
-  { intros ->. destruct (acquire_spec _ _ _ _ _ (i_poolb _ _ I1) A2) as [_ [_ [_ [_ [_ [_ [P3 _]]]]]]].
-    destruct P3 as [P3|P3]; [exact (P1 P3)|lia]. }
+  destruct (inv_acquire _ _ _ _ _ _ I2 A3) as [I3 [U3 [N3 [P3 [L3 [R3 [O3 [F3 S3]]]]]]]].
+  destruct (acquire_spec _ _ _ _ _ (i_poolb _ _ I1) A2) as [_ [_ [_ [_ [_ [_ [Q2 [LL2 _]]]]]]]].
+  destruct (acquire_spec _ _ _ _ _ (i_poolb _ _ I2) A3) as [_ [_ [_ [_ [_ [_ [Q3 [LL3 _]]]]]]]].
+  assert (D12 : b1 <> b2) by (intros ->; destruct Q2 as [Q2|Q2]; [exact (P1 Q2)|lia]).
+  assert (D23 : b2 <> b3) by (intros ->; destruct Q3 as [Q3|Q3]; [exact (P2 Q3)|lia]).
+  assert (D13 : b1 <> b3).
+  { intros ->. destruct Q3 as [Q3|Q3]; [|lia]. apply S2 in Q3. exact (P1 Q3). }
   assert (LV1 : forall o co, live cs1 o co <-> live cs o co) by (intros; unfold live; rewrite O1; tauto).
   assert (LV2 : forall o co, live cs2 o co <-> live cs o co) by (intros; unfold live; rewrite O2, O1; tauto).
-  destruct (acquire_spec _ _ _ _ _ (i_poolb _ _ I1) A2) as [_ [_ [_ [_ [_ [_ [_ [LL _]]]]]]]].
-  pose proof (inv_add_obj cs2 st b1 b2 (vmm v) I2 D) as K.
+  assert (LV3 : forall o co, live cs3 o co <-> live cs o co) by (intros; unfold live; rewrite O3, O2, O1; tauto).
+  pose proof (inv_add_obj cs3 st b1 b2 b3 (vmm v) (vmate v) I3) as K.
   unfold rel, alloc. cbn [fst snd]. split.
   - rewrite (i_regs _ _ I). reflexivity.
-  - rewrite <- R1 at 1. rewrite <- R2. rewrite <- O1, <- O2.
-    replace v with (mkv (nth b1 (heap cs2) []) (nth b2 (heap cs2) []) (vmm v)) at 2.
-    + apply K; auto.
-      * intros o co Hl. split; [apply (U1 o co); apply LV2; exact Hl|apply (U2 o co); apply LV1, LV2; exact Hl].
-      * lia.
-    + rewrite N2, (F2 b1 D), N1. destruct v; reflexivity.
+  - rewrite <- R1 at 1. rewrite <- R2, <- R3. rewrite <- O1, <- O2, <- O3.
+    assert (E : mkv (nth b1 (heap cs3) []) (nth b2 (heap cs3) []) (vmm v) (nth b3 (heap cs3) []) (vmate v) = v)
+      by (rewrite N3, (F3 b2 D23), N2, (F3 b1 D13), (F2 b1 D12), N1; destruct v; reflexivity).
+    rewrite E in K. apply K.
+    + repeat split; assumption.
+    + intros o co x Hl [->|[->| ->]].
+      * apply (U1 o co). apply LV3. exact Hl.
+      * apply (U2 o co). apply LV1, LV3. exact Hl.
+      * apply (U3 o co). apply LV2, LV3. exact Hl.
+    + intros x [->|[->| ->]]; split; try assumption; try lia.
+      * intros Hin. apply S3, S2 in Hin. exact (P1 Hin).
+      * intros Hin. apply S3 in Hin. exact (P2 Hin).
 Qed.
 
 (* ================= part HP3 ================= *)
@@ -204,10 +220,11 @@ Qed.
 Lemma inv_overwrite : forall cs st ob co v, inv cs st -> live cs ob co -> inv (c_overwrite cs ob co v) (set_obj st ob v).
 Proof.
   intros cs st ob co v I Hl. pose proof (live_lt _ _ _ Hl) as Lo.
-  assert (B1 := i_bound _ _ I ob co (cseq co) Hl (or_introl eq_refl)).
-  assert (B2 := i_bound _ _ I ob co (cqual co) Hl (or_intror eq_refl)).
-  assert (S := i_self _ _ I ob co Hl).
-  set (co' := mkco (cseq co) (cqual co) (vmm v)).
+  assert (B1 := i_bound _ _ I ob co (cseq co) Hl (owns_seq co)).
+  assert (B2 := i_bound _ _ I ob co (cqual co) Hl (owns_qual co)).
+  assert (B3 := i_bound _ _ I ob co (cfeat co) Hl (owns_feat co)).
+  destruct (i_self _ _ I ob co Hl) as [S12 [S13 S23]].
+  set (co' := mkco (cseq co) (cqual co) (cfeat co) (vmm v) (vmate v)).
   assert (LV : forall o c, live (c_overwrite cs ob co v) o c <-> ((o = ob /\ c = co') \/ (o <> ob /\ live cs o c))).
   { intros o c. unfold c_overwrite. rewrite live_upd by exact Lo. split.
     - intros [[H1 H2]|H]; [left; split; [exact H1|injection H2; auto]|right; exact H].
@@ -215,9 +232,10 @@ Proof.
   assert (HF : forall o c x, o <> ob -> live cs o c -> owns c x ->
                nth x (heap (c_overwrite cs ob co v)) [] = nth x (heap cs) []).
   { intros o c x Hne Hc Hx. unfold c_overwrite. cbn [heap].
-    assert (x <> cseq co) by (intros ->; exact (i_disj _ _ I o ob c co _ Hc Hl Hne Hx (or_introl eq_refl))).
-    assert (x <> cqual co) by (intros ->; exact (i_disj _ _ I o ob c co _ Hc Hl Hne Hx (or_intror eq_refl))).
-    rewrite nth_upd_other by congruence. rewrite nth_upd_other by congruence. reflexivity. }
+    assert (x <> cseq co) by (intros ->; exact (i_disj _ _ I o ob c co _ Hc Hl Hne Hx (owns_seq co))).
+    assert (x <> cqual co) by (intros ->; exact (i_disj _ _ I o ob c co _ Hc Hl Hne Hx (owns_qual co))).
+    assert (x <> cfeat co) by (intros ->; exact (i_disj _ _ I o ob c co _ Hc Hl Hne Hx (owns_feat co))).
+    rewrite !nth_upd_other by congruence. reflexivity. }
   constructor.
   - exact (i_regs _ _ I).
   - unfold c_overwrite, set_obj. cbn. rewrite !upd_len. exact (i_len _ _ I).
@@ -226,15 +244,17 @@ Proof.
     + exists c. apply LV. auto.
   - intros o c Hc. apply LV in Hc. destruct Hc as [[-> ->]|[Hne Hc]]; unfold set_obj; cbn [objs].
     + rewrite nth_error_upd_same by (rewrite <- (i_len _ _ I); exact Lo). f_equal.
-      unfold cread, c_overwrite, co'. cbn [cseq cqual cmm heap].
-      rewrite nth_upd_same by (rewrite upd_len; exact B1).
-      rewrite nth_upd_other by congruence. rewrite nth_upd_same by exact B2. destruct v; reflexivity.
+      unfold cread, c_overwrite, co'. cbn [cseq cqual cfeat cmm cmate heap].
+      rewrite nth_upd_same by (rewrite !upd_len; exact B1).
+      rewrite (nth_upd_other _ (cseq co) (cqual co)) by congruence. rewrite nth_upd_same by (rewrite upd_len; exact B2).
+      rewrite (nth_upd_other _ (cseq co) (cfeat co)) by congruence. rewrite (nth_upd_other _ (cqual co) (cfeat co)) by congruence.
+      rewrite nth_upd_same by exact B3. destruct v; reflexivity.
     + rewrite nth_error_upd_other by congruence. rewrite (i_sim _ _ I o c Hc). f_equal. symmetry.
       apply cread_frame. intros x Hx. exact (HF o c x Hne Hc Hx).
   - intros o c x Hc Hx. unfold c_overwrite. cbn [heap]. rewrite !upd_len. apply LV in Hc. destruct Hc as [[-> ->]|[Hne Hc]].
-    + destruct Hx as [->| ->]; cbn; assumption.
+    + destruct Hx as [->|[->| ->]]; cbn; assumption.
     + exact (i_bound _ _ I o c x Hc Hx).
-  - intros o c Hc. apply LV in Hc. destruct Hc as [[-> ->]|[Hne Hc]]; [exact S|exact (i_self _ _ I o c Hc)].
+  - intros o c Hc. apply LV in Hc. destruct Hc as [[-> ->]|[Hne Hc]]; [repeat split; assumption|exact (i_self _ _ I o c Hc)].
   - intros o1 o2 c1 c2 x H1 H2 Hne Hx1 Hx2. apply LV in H1. apply LV in H2.
     destruct H1 as [[-> ->]|[N1 H1]]; destruct H2 as [[-> ->]|[N2 H2]]; try congruence.
     + exact (i_disj _ _ I ob o2 co c2 x Hl H2 Hne Hx1 Hx2).
@@ -269,7 +289,7 @@ Proof. intros A i x y l. revert i. induction l as [|h l IH]; intros [|i]; cbn; a
 
 (** a live object exchanges some of its buffers for unowned ones; the buffers it gives up may go to the pool *)
 Lemma inv_reown : forall cs st ob co co' heap' pool', inv cs st -> live cs ob co ->
-  cseq co' <> cqual co' ->
+  distinct3 (cseq co') (cqual co') (cfeat co') ->
   (forall x, owns co' x -> (x < length heap')%nat) ->
   (forall x, owns co' x -> ~ In x pool') ->
   (forall x, owns co' x -> owns co x \/ (forall o c, live cs o c -> ~ owns c x)) ->
@@ -278,7 +298,7 @@ Lemma inv_reown : forall cs st ob co co' heap' pool', inv cs st -> live cs ob co
   (length (heap cs) <= length heap')%nat ->
   (forall o c x, o <> ob -> live cs o c -> owns c x -> nth x heap' [] = nth x (heap cs) []) ->
   inv (mkcs (cregs cs) (upd ob (Some co') (cobjs cs)) heap' pool')
-      (set_obj st ob (mkv (nth (cseq co') heap' []) (nth (cqual co') heap' []) (cmm co'))).
+      (set_obj st ob (mkv (nth (cseq co') heap' []) (nth (cqual co') heap' []) (cmm co') (nth (cfeat co') heap' []) (cmate co'))).
 Proof.
   intros cs st ob co co' heap' pool' I Hl D B P K PS PB LL F. pose proof (live_lt _ _ _ Hl) as Lo.
   set (cs' := mkcs (cregs cs) (upd ob (Some co') (cobjs cs)) heap' pool').
@@ -319,7 +339,7 @@ Proof. intros ob l. induction l as [|h l IH]; intros [|r]; cbn; auto. destruct h
 
 Lemma inv_recycle : forall cs st ob co, inv cs st -> live cs ob co ->
   inv (mkcs (map (fun x => match x with Some o' => if Nat.eqb o' ob then None else x | None => None end) (cregs cs))
-            (upd ob None (cobjs cs)) (heap cs) (cseq co :: cqual co :: pool cs))
+            (upd ob None (cobjs cs)) (heap cs) (cseq co :: cfeat co :: cqual co :: pool cs))
       (mks (map (fun x => match x with Some o' => if Nat.eqb o' ob then None else x | None => None end) (regs st)) (objs st)).
 Proof.
   intros cs st ob co I Hl. pose proof (live_lt _ _ _ Hl) as Lo.
@@ -337,13 +357,15 @@ Proof.
   - intros o c Hc. apply LV in Hc. destruct Hc as [Hne Hc]. exact (i_self _ _ I o c Hc).
   - intros o1 o2 c1 c2 x H1 H2. apply LV in H1. apply LV in H2. destruct H1 as [_ H1]. destruct H2 as [_ H2].
     exact (i_disj _ _ I o1 o2 c1 c2 x H1 H2).
-  - intros o c x Hc Hx. apply LV in Hc. destruct Hc as [Hne Hc]. intros [Hin|[Hin|Hin]].
-    + subst x. exact (i_disj _ _ I o ob c co _ Hc Hl Hne Hx (or_introl eq_refl)).
-    + subst x. exact (i_disj _ _ I o ob c co _ Hc Hl Hne Hx (or_intror eq_refl)).
+  - intros o c x Hc Hx. apply LV in Hc. destruct Hc as [Hne Hc]. intros [Hin|[Hin|[Hin|Hin]]].
+    + subst x. exact (i_disj _ _ I o ob c co _ Hc Hl Hne Hx (owns_seq co)).
+    + subst x. exact (i_disj _ _ I o ob c co _ Hc Hl Hne Hx (owns_feat co)).
+    + subst x. exact (i_disj _ _ I o ob c co _ Hc Hl Hne Hx (owns_qual co)).
     + exact (i_pool _ _ I o c x Hc Hx Hin).
-  - intros x [Hin|[Hin|Hin]].
-    + subst x. exact (i_bound _ _ I ob co _ Hl (or_introl eq_refl)).
-    + subst x. exact (i_bound _ _ I ob co _ Hl (or_intror eq_refl)).
+  - intros x [Hin|[Hin|[Hin|Hin]]].
+    + subst x. exact (i_bound _ _ I ob co _ Hl (owns_seq co)).
+    + subst x. exact (i_bound _ _ I ob co _ Hl (owns_feat co)).
+    + subst x. exact (i_bound _ _ I ob co _ Hl (owns_qual co)).
     + exact (i_poolb _ _ I x Hin).
 Qed.
 
@@ -372,6 +394,28 @@ Ltac dispatch_on cs st r I :=
   unfold con; destruct (dispatch cs st r I) as [[D1 D2]|[ob [co [D1 [Hl [D2 D3]]]]]];
   [rewrite D1, D2; apply sim_fails; exact I| rewrite D1, D2, D3; unfold live in Hl; rewrite Hl; fold (live cs ob co) in Hl].
 
+(** writes into an object that is not live (a recycled mate) are invisible *)
+Lemma inv_dead_write : forall cs st m x, inv cs st -> (forall co, ~ live cs m co) -> inv cs (set_obj st m x).
+Proof.
+  intros cs st m x I D. constructor; try apply I.
+  - unfold set_obj. cbn. rewrite upd_len. exact (i_len _ _ I).
+  - intros o co Hl. unfold set_obj. cbn [objs]. rewrite nth_error_upd_other by (intros ->; exact (D co Hl)). exact (i_sim _ _ I o co Hl).
+Qed.
+
+Lemma with_mate_same : forall v, with_mate v (vmate v) = v.
+Proof. intros []. reflexivity. Qed.
+
+(** c_setmate simulates "write the mate field of object m if it exists in objs" *)
+Lemma sim_setmate : forall cs st m mt, inv cs st ->
+  inv (c_setmate cs m mt) (match nth_error (objs st) m with Some vm => set_obj st m (with_mate vm mt) | None => st end).
+Proof.
+  intros cs st m mt I. unfold c_setmate. destruct (nth_error (cobjs cs) m) as [[co|]|] eqn:E.
+  - fold (live cs m co) in E. rewrite (i_sim _ _ I m co E). apply inv_overwrite; assumption.
+  - destruct (nth_error (objs st) m) as [vm|]; [|exact I]. apply inv_dead_write; [exact I|]. intros co Hl. unfold live in Hl. congruence.
+  - destruct (nth_error (objs st) m) as [vm|] eqn:E2; [|exact I].
+    apply nth_error_None in E. assert (nth_error (objs st) m <> None) by congruence. apply nth_error_Some in H. rewrite (i_len _ _ I) in E. lia.
+Qed.
+
 Lemma sim_step : forall cs st o, inv cs st -> rel (cstep cs o) (step st (abs_op o)).
 Proof.
   intros cs st o I. destruct o; cbn [cstep abs_op step].
@@ -380,22 +424,29 @@ Proof.
   - (* rc *) dispatch_on cs st r I. destruct (rc_val (cread cs co)) as [v'| |]; try (apply sim_fails; exact I).
     destruct inplace; [|apply sim_alloc; exact I].
     pose proof (inv_overwrite cs st ob co v' I Hl) as I'.
-    apply (sim_alias _ _ ob (mkco (cseq co) (cqual co) (vmm v')) I').
+    apply (sim_alias _ _ ob (mkco (cseq co) (cqual co) (cfeat co) (vmm v') (vmate v')) I').
     unfold live, c_overwrite. cbn. apply nth_error_upd_same. exact (live_lt _ _ _ Hl).
   - (* sub *) dispatch_on cs st r I. destruct (sub_val (cread cs co) from to circ) as [v'| |]; try (apply sim_fails; exact I).
     apply sim_alloc. exact I.
   - (* setseq *) dispatch_on cs st r I. destruct (acquire c1 (to_lower s) cs) as [b cs1] eqn:A.
     destruct (inv_acquire _ _ _ _ _ _ I A) as [I1 [U1 [N1 [P1 [L1 [R1 [O1 [F1 S1]]]]]]]].
     assert (Hl1 : live cs1 ob co) by (unfold live; rewrite O1; exact Hl).
-    assert (Nb : cqual co <> b) by (intros E; apply (U1 ob co Hl); right; auto).
-    pose proof (inv_reown cs1 st ob co (mkco b (cqual co) (cmm co)) (heap cs1) (pool cs1) I1 Hl1) as K.
-    cbn [cseq cqual cmm] in K. rewrite N1 in K.
-    assert (EQ : nth (cqual co) (heap cs1) [] = vqual (cread cs co)) by (unfold cread; cbn; apply F1; exact Nb).
-    rewrite EQ in K. split; [reflexivity|]. cbn [snd]. apply K; clear K.
-    + congruence.
-    + intros x [->| ->]; [exact L1|]. exact (i_bound _ _ I1 ob co _ Hl1 (or_intror eq_refl)).
-    + intros x [->| ->]; [exact P1|]. exact (i_pool _ _ I1 ob co _ Hl1 (or_intror eq_refl)).
-    + intros x [->| ->]; [right|left; right; reflexivity]. intros o c Hc. apply (U1 o c). unfold live in *. rewrite <- O1. exact Hc.
+    assert (Nb : cqual co <> b) by (intros E; apply (U1 ob co Hl); rewrite <- E; apply owns_qual).
+    assert (Nf : cfeat co <> b) by (intros E; apply (U1 ob co Hl); rewrite <- E; apply owns_feat).
+    pose proof (i_self _ _ I ob co Hl) as SELF. unfold distinct3 in SELF.
+    pose proof (inv_reown cs1 st ob co (mkco b (cqual co) (cfeat co) (cmm co) (cmate co)) (heap cs1) (pool cs1) I1 Hl1) as K.
+    cbn [cseq cqual cfeat cmm cmate] in K. rewrite N1 in K.
+    rewrite (F1 _ Nb), (F1 _ Nf) in K.
+    split; [reflexivity|]. cbn [snd]. apply K; clear K.
+    + unfold distinct3. intuition congruence.
+    + intros x [->|[->| ->]]; [exact L1| |].
+      * exact (i_bound _ _ I1 ob co _ Hl1 (owns_qual co)).
+      * exact (i_bound _ _ I1 ob co _ Hl1 (owns_feat co)).
+    + intros x [->|[->| ->]]; [exact P1| |].
+      * exact (i_pool _ _ I1 ob co _ Hl1 (owns_qual co)).
+      * exact (i_pool _ _ I1 ob co _ Hl1 (owns_feat co)).
+    + intros x [->|[->| ->]]; cbn [cseq cqual cfeat]; [right|left; apply owns_qual|left; apply owns_feat].
+      intros o c Hc. apply (U1 o c). unfold live in *. rewrite <- O1. exact Hc.
     + intros x Hx. left. exact Hx.
     + exact (i_poolb _ _ I1).
     + lia.
@@ -403,52 +454,121 @@ Proof.
   - (* setqual *) dispatch_on cs st r I.
     set (cs0 := mkcs (cregs cs) (upd ob None (cobjs cs)) (heap cs) (cqual co :: pool cs)).
     destruct (acquire c1 q cs0) as [b cs1] eqn:A.
-    assert (B1 := i_bound _ _ I ob co (cseq co) Hl (or_introl eq_refl)).
-    assert (B2 := i_bound _ _ I ob co (cqual co) Hl (or_intror eq_refl)).
+    assert (B1 := i_bound _ _ I ob co (cseq co) Hl (owns_seq co)).
+    assert (B2 := i_bound _ _ I ob co (cqual co) Hl (owns_qual co)).
+    assert (B3 := i_bound _ _ I ob co (cfeat co) Hl (owns_feat co)).
+    pose proof (i_self _ _ I ob co Hl) as SELF. unfold distinct3 in SELF.
     assert (PB0 : pool_bounded cs0).
     { intros x [<-|Hx]; [exact B2|exact (i_poolb _ _ I x Hx)]. }
     destruct (acquire_spec _ _ _ _ _ PB0 A) as [R [O [N1 [N2 [P1 [P2 [P3 [LL1 LL2]]]]]]]].
     unfold cs0 in R, O, P2, P3, LL1, N2. cbn [cregs cobjs heap pool] in R, O, P2, P3, LL1, N2.
     rewrite R, O, upd_upd.
-    assert (Ns : cseq co <> b).
-    { intros <-. destruct P3 as [[P3|P3]|P3].
-      - exact (i_self _ _ I ob co Hl (eq_sym P3)).
-      - exact (i_pool _ _ I ob co _ Hl (or_introl eq_refl) P3).
-      - lia. }
+    assert (Ns : forall y, (y = cseq co \/ y = cfeat co) -> y <> b).
+    { intros y Hy <-. destruct P3 as [[P3|P3]|P3].
+      - destruct Hy as [Hy|Hy]; rewrite Hy in P3; intuition congruence.
+      - destruct Hy as [Hy|Hy]; subst y; [exact (i_pool _ _ I ob co _ Hl (owns_seq co) P3)|exact (i_pool _ _ I ob co _ Hl (owns_feat co) P3)].
+      - destruct Hy as [Hy|Hy]; subst y; lia. }
     assert (UO : forall o c x, o <> ob -> live cs o c -> owns c x -> x <> b).
     { intros o c x Hne Hc Hx ->. destruct P3 as [[P3|P3]|P3].
-      - subst b. exact (i_disj _ _ I o ob c co _ Hc Hl Hne Hx (or_intror eq_refl)).
+      - subst b. exact (i_disj _ _ I o ob c co _ Hc Hl Hne Hx (owns_qual co)).
       - exact (i_pool _ _ I o c _ Hc Hx P3).
       - pose proof (i_bound _ _ I o c _ Hc Hx). lia. }
-    pose proof (inv_reown cs st ob co (mkco (cseq co) b (cmm co)) (heap cs1) (pool cs1) I Hl) as K.
-    cbn [cseq cqual cmm] in K. rewrite N1 in K. rewrite (N2 (cseq co) Ns) in K.
+    pose proof (inv_reown cs st ob co (mkco (cseq co) b (cfeat co) (cmm co) (cmate co)) (heap cs1) (pool cs1) I Hl) as K.
+    cbn [cseq cqual cfeat cmm cmate] in K. rewrite N1 in K.
+    rewrite (N2 (cseq co) (Ns _ (or_introl eq_refl))), (N2 (cfeat co) (Ns _ (or_intror eq_refl))) in K.
     split; [reflexivity|]. cbn [snd]. apply K; clear K.
-    + exact Ns.
-    + intros x [->| ->]; cbn [cseq cqual]; [lia|exact LL2].
-    + intros x [->| ->]; cbn [cseq cqual]; [|exact P1]. intros Hin. destruct (P2 _ Hin) as [E|E].
-      * exact (i_self _ _ I ob co Hl (eq_sym E)).
-      * exact (i_pool _ _ I ob co _ Hl (or_introl eq_refl) E).
-    + intros x [->| ->]; cbn [cseq cqual]; [left; left; reflexivity|].
-      destruct (Nat.eq_dec b (cqual co)) as [->|Nq]; [left; right; reflexivity|right].
-      intros o c Hc Hx. destruct (Nat.eq_dec o ob) as [->|Hne].
-      * unfold live in Hc, Hl. rewrite Hl in Hc. injection Hc as <-. destruct Hx as [Hx|Hx]; congruence.
-      * exact (UO o c b Hne Hc Hx eq_refl).
-    + intros x Hin. destruct (P2 _ Hin) as [E|E]; [right; right; auto|left; exact E].
+    + pose proof (Ns _ (or_introl eq_refl)). pose proof (Ns _ (or_intror eq_refl)). unfold distinct3. intuition congruence.
+    + intros x [->|[->| ->]]; cbn [cseq cqual cfeat]; solve [lia | exact LL2].
+    + assert (NP : forall y, (y = cseq co \/ y = cfeat co) -> ~ In y (pool cs1)).
+      { intros y Hy Hin. destruct (P2 _ Hin) as [E|E].
+        - destruct Hy as [Hy|Hy]; rewrite Hy in E; intuition congruence.
+        - destruct Hy as [Hy|Hy]; subst y; [exact (i_pool _ _ I ob co _ Hl (owns_seq co) E)|exact (i_pool _ _ I ob co _ Hl (owns_feat co) E)]. }
+      intros x [->|[->| ->]]; cbn [cseq cqual cfeat]; solve [exact P1 | apply NP; auto].
+    + assert (KB : owns co b \/ (forall o c, live cs o c -> ~ owns c b)).
+      { destruct (Nat.eq_dec b (cqual co)) as [->|Nq]; [left; apply owns_qual|right].
+        intros o c Hc Hx. destruct (Nat.eq_dec o ob) as [->|Hne].
+        - unfold live in Hc, Hl. rewrite Hl in Hc. injection Hc as <-.
+          destruct Hx as [Hx|[Hx|Hx]]; try congruence;
+            solve [exact (Ns _ (or_introl eq_refl) (eq_sym Hx)) | exact (Ns _ (or_intror eq_refl) (eq_sym Hx))].
+        - exact (UO o c b Hne Hc Hx eq_refl). }
+      intros x [->|[->| ->]]; cbn [cseq cqual cfeat]; solve [exact KB | left; apply owns_seq | left; apply owns_feat].
+    + intros x Hin. destruct (P2 _ Hin) as [E|E]; [right; subst x; apply owns_qual|left; exact E].
+    + intros x Hin. destruct (P2 _ Hin) as [E|E]; [subst x; lia|]. pose proof (i_poolb _ _ I x E). lia.
+    + exact LL1.
+    + intros o c x Hne Hc Hx. apply N2. exact (UO o c x Hne Hc Hx).
+  - (* setfeat *) dispatch_on cs st r I.
+    set (cs0 := mkcs (cregs cs) (upd ob None (cobjs cs)) (heap cs) (cfeat co :: pool cs)).
+    destruct (acquire c1 f cs0) as [b cs1] eqn:A.
+    assert (B1 := i_bound _ _ I ob co (cseq co) Hl (owns_seq co)).
+    assert (B2 := i_bound _ _ I ob co (cfeat co) Hl (owns_feat co)).
+    assert (B3 := i_bound _ _ I ob co (cqual co) Hl (owns_qual co)).
+    pose proof (i_self _ _ I ob co Hl) as SELF. unfold distinct3 in SELF.
+    assert (PB0 : pool_bounded cs0).
+    { intros x [<-|Hx]; [exact B2|exact (i_poolb _ _ I x Hx)]. }
+    destruct (acquire_spec _ _ _ _ _ PB0 A) as [R [O [N1 [N2 [P1 [P2 [P3 [LL1 LL2]]]]]]]].
+    unfold cs0 in R, O, P2, P3, LL1, N2. cbn [cregs cobjs heap pool] in R, O, P2, P3, LL1, N2.
+    rewrite R, O, upd_upd.
+    assert (Ns : forall y, (y = cseq co \/ y = cqual co) -> y <> b).
+    { intros y Hy <-. destruct P3 as [[P3|P3]|P3].
+      - destruct Hy as [Hy|Hy]; rewrite Hy in P3; intuition congruence.
+      - destruct Hy as [Hy|Hy]; subst y; [exact (i_pool _ _ I ob co _ Hl (owns_seq co) P3)|exact (i_pool _ _ I ob co _ Hl (owns_qual co) P3)].
+      - destruct Hy as [Hy|Hy]; subst y; lia. }
+    assert (UO : forall o c x, o <> ob -> live cs o c -> owns c x -> x <> b).
+    { intros o c x Hne Hc Hx ->. destruct P3 as [[P3|P3]|P3].
+      - subst b. exact (i_disj _ _ I o ob c co _ Hc Hl Hne Hx (owns_feat co)).
+      - exact (i_pool _ _ I o c _ Hc Hx P3).
+      - pose proof (i_bound _ _ I o c _ Hc Hx). lia. }
+    pose proof (inv_reown cs st ob co (mkco (cseq co) (cqual co) b (cmm co) (cmate co)) (heap cs1) (pool cs1) I Hl) as K.
+    cbn [cseq cqual cfeat cmm cmate] in K. rewrite N1 in K.
+    rewrite (N2 (cseq co) (Ns _ (or_introl eq_refl))), (N2 (cqual co) (Ns _ (or_intror eq_refl))) in K.
+    split; [reflexivity|]. cbn [snd]. apply K; clear K.
+    + pose proof (Ns _ (or_introl eq_refl)). pose proof (Ns _ (or_intror eq_refl)). unfold distinct3. intuition congruence.
+    + intros x [->|[->| ->]]; cbn [cseq cqual cfeat]; solve [lia | exact LL2].
+    + assert (NP : forall y, (y = cseq co \/ y = cqual co) -> ~ In y (pool cs1)).
+      { intros y Hy Hin. destruct (P2 _ Hin) as [E|E].
+        - destruct Hy as [Hy|Hy]; rewrite Hy in E; intuition congruence.
+        - destruct Hy as [Hy|Hy]; subst y; [exact (i_pool _ _ I ob co _ Hl (owns_seq co) E)|exact (i_pool _ _ I ob co _ Hl (owns_qual co) E)]. }
+      intros x [->|[->| ->]]; cbn [cseq cqual cfeat]; solve [exact P1 | apply NP; auto].
+    + assert (KB : owns co b \/ (forall o c, live cs o c -> ~ owns c b)).
+      { destruct (Nat.eq_dec b (cfeat co)) as [->|Nq]; [left; apply owns_feat|right].
+        intros o c Hc Hx. destruct (Nat.eq_dec o ob) as [->|Hne].
+        - unfold live in Hc, Hl. rewrite Hl in Hc. injection Hc as <-.
+          destruct Hx as [Hx|[Hx|Hx]]; try congruence;
+            solve [exact (Ns _ (or_introl eq_refl) (eq_sym Hx)) | exact (Ns _ (or_intror eq_refl) (eq_sym Hx))].
+        - exact (UO o c b Hne Hc Hx eq_refl). }
+      intros x [->|[->| ->]]; cbn [cseq cqual cfeat]; solve [exact KB | left; apply owns_seq | left; apply owns_qual].
+    + intros x Hin. destruct (P2 _ Hin) as [E|E]; [right; subst x; apply owns_feat|left; exact E].
     + intros x Hin. destruct (P2 _ Hin) as [E|E]; [subst x; lia|]. pose proof (i_poolb _ _ I x E). lia.
     + exact LL1.
     + intros o c x Hne Hc Hx. apply N2. exact (UO o c x Hne Hc Hx).
   - (* poke *) dispatch_on cs st r I. apply sim_quiet. apply inv_overwrite; assumption.
   - (* pokeq *) dispatch_on cs st r I. apply sim_quiet. apply inv_overwrite; assumption.
+  - (* pokef *) dispatch_on cs st r I. apply sim_quiet. apply inv_overwrite; assumption.
   - (* setmm *) dispatch_on cs st r I. apply sim_quiet. apply inv_overwrite; assumption.
   - (* pokemm *) dispatch_on cs st r I. apply sim_quiet. apply inv_overwrite; assumption.
+  - (* write *) dispatch_on cs st r I. apply sim_quiet. apply inv_overwrite; assumption.
   - (* join *) dispatch_on cs st r I.
     unfold con; destruct (dispatch cs st r2 I) as [[E1 E2]|[ob2 [co2 [E1 [Hl2 [E2 E3]]]]]];
       [rewrite E1, E2; apply sim_fails; exact I|rewrite E1, E2, E3; unfold live in Hl2; rewrite Hl2; fold (live cs ob2 co2) in Hl2].
     destruct inplace; [|apply sim_alloc; exact I].
     match goal with |- rel (c_alias (c_overwrite cs ob co ?v) ob) _ => set (v' := v) end.
     pose proof (inv_overwrite cs st ob co v' I Hl) as I'.
-    apply (sim_alias _ _ ob (mkco (cseq co) (cqual co) (vmm v')) I').
+    apply (sim_alias _ _ ob (mkco (cseq co) (cqual co) (cfeat co) (vmm v') (vmate v')) I').
     unfold live, c_overwrite. cbn. apply nth_error_upd_same. exact (live_lt _ _ _ Hl).
+  - (* pair *) dispatch_on cs st r I.
+    unfold con; destruct (dispatch cs st r2 I) as [[E1 E2]|[ob2 [co2 [E1 [Hl2 [E2 E3]]]]]];
+      [rewrite E1, E2; apply sim_fails; exact I|rewrite E1, E2, E3; unfold live in Hl2; rewrite Hl2; fold (live cs ob2 co2) in Hl2].
+    pose proof (inv_overwrite cs st ob co (with_mate (cread cs co) (Some ob2)) I Hl) as I1.
+    pose proof (sim_setmate _ _ ob2 (Some ob) I1) as I2.
+    destruct (nth_error (objs (set_obj st ob (with_mate (cread cs co) (Some ob2)))) ob2); (split; [reflexivity|exact I2]).
+  - (* unpair *) dispatch_on cs st r I.
+    assert (I1 : inv (match cmate co with Some m => c_setmate cs m None | None => cs end)
+                     (match vmate (cread cs co) with
+                      | Some m => match nth_error (objs st) m with Some vm => set_obj st m (with_mate vm None) | None => st end
+                      | None => st end)).
+    { unfold cread. cbn [vmate]. destruct (cmate co) as [m|]; [apply sim_setmate; exact I|exact I]. }
+    pose proof (sim_setmate _ _ ob None I1) as I2.
+    match goal with |- rel _ (match ?x with _ => _ end) => destruct x end; (split; [reflexivity|exact I2]).
   - (* recycle *) dispatch_on cs st r I. split; [reflexivity|]. cbn [snd]. apply inv_recycle; assumption.
   - (* churn *) destruct (nth_error (pool cs) k) as [b|] eqn:E; [|apply sim_quiet; exact I].
     apply sim_quiet. apply inv_heap_frame; [exact I|apply upd_len|].
@@ -487,10 +607,10 @@ Open Scope N_scope.
 (** the pre-repair SetQualities leaves the object's NEW quality buffer in the pool: the next hand-out
     overwrites the qualities of a live object (a = acgt/[1;2;3;4]; a.SetQualities([5;6;7;8]); new gggg) *)
 Lemma setqualities_orig_refuted :
-  let '(_, cs1) := cstep cst0 (CNew [97;99;103;116] [1;2;3;4] None CFresh CFresh) in
+  let '(_, cs1) := cstep cst0 (CNew [97;99;103;116] [1;2;3;4] None [] true CFresh CFresh CFresh) in
   let cs2 := csetqual_orig cs1 0 [5;6;7;8] CFresh in
-  let '(_, cs3) := cstep cs2 (CNew [103;103;103;103] [] None (CPool 0) CFresh) in
-  cval_of cs2 0 = Some (mkv [97;99;103;116] [5;6;7;8] None) /\
-  cval_of cs3 0 = Some (mkv [97;99;103;116] [103;103;103;103] None).
+  let '(_, cs3) := cstep cs2 (CNew [103;103;103;103] [] None [] true (CPool 0) CFresh CFresh) in
+  cval_of cs2 0 = Some (mkv [97;99;103;116] [5;6;7;8] None [] None) /\
+  cval_of cs3 0 = Some (mkv [97;99;103;116] [103;103;103;103] None [] None).
 Proof. vm_compute. split; reflexivity. Qed.
 
